@@ -1,0 +1,42 @@
+package values
+
+import (
+	"fmt"
+	"reflect"
+	"sort"
+)
+
+// SortedMapKeys returns the keys of a map value in a deterministic order:
+// strings lexically, numbers numerically, keys of different kinds by kind.
+// Go randomizes map iteration, and template output must not depend on it.
+func SortedMapKeys(rv reflect.Value) []reflect.Value {
+	keys := rv.MapKeys()
+	sort.SliceStable(keys, func(i, j int) bool { return mapKeyLess(keys[i], keys[j]) })
+	return keys
+}
+
+func mapKeyLess(a, b reflect.Value) bool {
+	for a.Kind() == reflect.Interface && !a.IsNil() {
+		a = a.Elem()
+	}
+	for b.Kind() == reflect.Interface && !b.IsNil() {
+		b = b.Elem()
+	}
+	if a.Kind() != b.Kind() {
+		return a.Kind() < b.Kind()
+	}
+	switch a.Kind() {
+	case reflect.String:
+		return a.String() < b.String()
+	case reflect.Int, reflect.Int8, reflect.Int16, reflect.Int32, reflect.Int64:
+		return a.Int() < b.Int()
+	case reflect.Uint, reflect.Uint8, reflect.Uint16, reflect.Uint32, reflect.Uint64, reflect.Uintptr:
+		return a.Uint() < b.Uint()
+	case reflect.Float32, reflect.Float64:
+		return a.Float() < b.Float()
+	case reflect.Bool:
+		return !a.Bool() && b.Bool()
+	default:
+		return fmt.Sprint(a) < fmt.Sprint(b)
+	}
+}
